@@ -52,7 +52,27 @@ impl DaySelector {
 impl Display for DaySelector {
     fn fmt(&self, f: &mut std::fmt::Formatter<'_>) -> std::fmt::Result {
         if !(self.year.is_empty() && self.monthday.is_empty() && self.week.is_empty()) {
-            write_selector(f, &self.year)?;
+            // A single year followed by a month or a date would be parsed as the year of this
+            // month or date: it has to be written as a range.
+            let ambiguous_year = match (self.year.as_slice(), self.monthday.first()) {
+                ([year], Some(first))
+                    if year.step == 1 && year.range.start() == year.range.end() =>
+                {
+                    match first {
+                        MonthdayRange::Month { year, .. } => year.is_none(),
+                        MonthdayRange::Date { start: (date, _), .. } => !date.has_year(),
+                    }
+                }
+                _ => false,
+            };
+
+            if ambiguous_year {
+                let year = self.year[0].range.start().deref();
+                write!(f, "{year}-{year}")?;
+            } else {
+                write_selector(f, &self.year)?;
+            }
+
             write_selector(f, &self.monthday)?;
 
             if !self.week.is_empty() {
